@@ -202,6 +202,8 @@ mod error;
 mod expand;
 mod parse;
 mod replacer;
+#[cfg(feature = "verif-hooks")]
+pub mod verif_hooks;
 mod vm;
 
 use crate::analyze::analyze;
